@@ -230,9 +230,16 @@ GV_CANARY("LocalNetwork_wcoef_res entry");
     struct AdjBase ls;                                                                       \
     mk_network(&N, &ls);                                                                     \
     int i, j;                                                                                \
+    GV_EXCL_ASSUME;                                                                          \
     call;                                                                                    \
     GV_CANARY(#hname " end");                                                                \
   }
+/* exclusion predicate of the finding "accessor of adjusted results without lazy guard": asked while adjusted */
+#ifdef GV_EXCL_UNGUARDED
+#define GV_EXCL_ASSUME __CPROVER_assume(N.tst_vyrovnani_)
+#else
+#define GV_EXCL_ASSUME
+#endif
 #define OBS_INDEX __CPROVER_assume(i >= 1 && (!N.tst_redmer_ || i <= N.pocmer_))
 
 void h_update(void)
